@@ -31,11 +31,12 @@ MASSES = [72.0, 36.0, 45.0, 54.5, 12.011]
 RESID_STARTS = [1, 7, 28, 100]
 
 # shapes on which the unchanged program is known to break the property (kept out of the default stream)
-FINDING_SHAPES = ("dup-key-in-block", "atom-removed-by-link", "fragments-out-of-insertion-order",
-                  "fragment-in-ring", "multires-first-resid-not-1", "resid-start-0",
-                  "mod-resname-ignored", "mods-without-termini", "mod-ixn-arity",
-                  "removed-node-id-equals-version", "link-multiterm-file-order", "block-resid-not-1",
-                  "ff-itp-file-order")
+FINDING_SHAPES = ("dup-key-in-block", "atom-removed-by-link", "multires-first-resid-not-1", "resid-start-0",
+                  "block-resid-not-1", "link-multiterm-file-order", "ff-itp-file-order")
+# former finding shapes that were repaired in /repo (fix: commits 18c3f8a 860ee51 42ca78f d2799d9 7d515ca d19fbd2)
+# and are part of the default stream now: a link removing node 1, modification interactions with three atoms,
+# force fields whose modifications lack the termini, -mods selections naming another residue, several from_itp
+# fragments in any insertion order, from_itp copies inside a ring
 
 
 def _params(rng, sect=None):
@@ -100,8 +101,11 @@ def gen_ff(rng, findings=(), protein=None, multires=None, syntax=None):
     protein = rng.random() < 0.5 if protein is None else protein
     multires = rng.random() < 0.35 if multires is None else multires
     pool = list(PROTEIN_NAMES if protein else POLYMER_NAMES)
-    if protein and rng.random() < 0.3:
-        pool += POLYMER_NAMES[:2]
+    # a force field whose modifications lack (some of) the termini; then mostly with polymer residues around,
+    # for which the missing modification must simply not matter
+    no_termini = protein and rng.random() < 0.15
+    if protein and (no_termini or rng.random() < 0.3):
+        pool = pool[:3] + POLYMER_NAMES[:3] if no_termini else pool + POLYMER_NAMES[:2]
     rng.shuffle(pool)
     blocks = []
     for name in pool[:rng.randint(1, 4)]:
@@ -175,9 +179,9 @@ def gen_ff(rng, findings=(), protein=None, multires=None, syntax=None):
             blocks[-1]["ixns"] = [i for i in blocks[-1]["ixns"] if not i["meta"] and i["sect"] != "impropers"]
         if not any(b["syntax"] == "ff" for b in blocks) and len(blocks) > 1:
             blocks[0]["syntax"] = "ff"
-    removal = "atom-removed-by-link" in findings or "removed-node-id-equals-version" in findings
-    if removal and rng.random() < (0.5 if "atom-removed-by-link" in findings else 1.0):
-        big = [b for b in singles if len(b["atoms"]) >= 2]
+    if "atom-removed-by-link" in findings and rng.random() < 0.8:
+        # prefer a two-atom block: its second atom is node 1 when the block comes first
+        big = [b for b in singles if len(b["atoms"]) == 2] or [b for b in singles if len(b["atoms"]) >= 2]
         if big:
             block = rng.choice(big)
             links.append(dict(kind="remove", resnames=[block["name"]],
@@ -189,12 +193,12 @@ def gen_ff(rng, findings=(), protein=None, multires=None, syntax=None):
             n = len(block["atoms"])
             block["dangling"].append(dict(sect="bonds", atoms=[n - 1, n], params=_params(rng), meta={}))
     mods = []
-    if protein and rng.random() < 0.85:
+    if protein and (no_termini or rng.random() < 0.85):
         prot_blocks = [b for b in singles if b["name"] in PROTEIN_NAMES]
         two = all(len(b["atoms"]) >= 2 for b in prot_blocks)
         names = ["N-ter", "C-ter"]
-        if "mods-without-termini" in findings and rng.random() < 0.5:
-            names = []
+        if no_termini:
+            names = rng.choice([[], ["N-ter"], ["C-ter"]])
         names += rng.sample(["zwit", "cap", "NH2-ter"], rng.randint(0, 2))
         for name in names:
             atoms = [("BB", {"atype": rng.choice(["Q5", "P6"]), "charge": rng.choice([1.0, -1.0, 0.0])})]
@@ -203,7 +207,7 @@ def gen_ff(rng, findings=(), protein=None, multires=None, syntax=None):
                 atoms.append(("SC1", rng.choice([{}, {"atype": "X1"}, {"mass": 99.0}])))
                 if rng.random() < 0.6:
                     ixns.append(dict(sect=rng.choice(["bonds", "constraints"]), atoms=["BB", "SC1"], params=_params(rng)))
-                if "mod-ixn-arity" in findings and rng.random() < 0.5:
+                if rng.random() < 0.3:
                     ixns.append(dict(sect="angles", atoms=["BB", "SC1", "BB"], params=_params(rng)))
             elif rng.random() < 0.2:
                 # names an atom that no residue has: must change nothing
@@ -344,13 +348,8 @@ def gen_graph(rng, ff, findings=(), nmin=3, nmax=12, shape=None, start=None, key
                 res_names.append(atom["resname"])
         m = len(res_names)
         ncopies = rng.choice([1, 1, 2, 2, 3])
-        # two separate runs (two fragments) instead of one run of 2 copies: the unchanged program needs
-        # the fragments to be discovered in resid order (finding fragments-out-of-insertion-order), which
-        # holds when node keys and insertion order follow the resids
+        # two separate runs (two fragments) instead of one run of 2 copies
         separate = rng.random() < 0.3 and ncopies >= 2
-        if separate and "fragments-out-of-insertion-order" not in findings:
-            keys = keys if keys in ("0..n-1", "offset") else "offset"
-            shuffle = False
         need = ncopies * m + (1 if separate else 0)
         if need <= n:
             pos = rng.randint(0, n - need)
@@ -385,7 +384,7 @@ def gen_graph(rng, ff, findings=(), nmin=3, nmax=12, shape=None, start=None, key
                 edges.append([rng.randrange(i), i])
     if shape == "cyclic" and n >= 3:
         in_run = {p for run in runs for p in run}
-        if in_run and "fragment-in-ring" not in findings:
+        if in_run and rng.random() < 0.4:
             # close the ring among residues outside (after or before) the from_itp runs only
             free = [p for p in range(n) if p not in in_run]
             lo_side = [p for p in free if p < min(in_run)]
@@ -435,8 +434,8 @@ def gen_mods(rng, ff, graph, findings=()):
     nodes = graph["nodes"]
     for _ in range(rng.randint(1, 3)):
         key, resid, resname, from_itp = rng.choice(nodes)
-        if "mod-resname-ignored" in findings and rng.random() < 0.5:
-            resname = rng.choice(PROTEIN_NAMES)
+        if rng.random() < 0.25:
+            resname = rng.choice(PROTEIN_NAMES)          # a selection that names another residue: must change nothing
         spec = "%s#%d" % (resname, resid) if resname[-1].isdigit() else "%s%d" % (resname, resid)
         out.append([spec, rng.choice(ff["mods"])["name"]])
     return out
